@@ -101,6 +101,15 @@ def _cases(tier, rng):
         if rng.random() < 0.3:
             c['ctx'] = 'split'
         yield c
+    # flat_map over items that are text: a str is iterated character by character, on both paths
+    for _ in range({'quick': 16, 'thorough': 100, 'search': 10}[tier]):
+        ng = rng.choice([1, 2, 3])
+        vals = [rng.choice(['zw', 'a', '', {'l': ['x', 'y']}, {'l': ['pq']}, {'t': ['u', 'v']}]) for _ in range(rng.choice([2, 4, 6]))]
+        term = [['flat_map']] + rng.choice([[], [['count', False]], [['to_list']]])
+        c = {'kind': 'dual', 'term': term, 'items': [{'t': [rng.randrange(ng), v]} for v in vals], 'no_model': True}
+        if rng.random() < 0.3:
+            c['ctx'] = 'split'
+        yield c
     # accumulated values whose == is elementwise and has no truth value (numpy arrays, pandas objects): scans, running or reduced,
     # with or without terminator, must treat them as opaque values on both paths (real code against real code, outside the model)
     for _ in range({'quick': 40, 'thorough': 300, 'search': 20}[tier]):
